@@ -17,3 +17,54 @@ package signappx
 //@   property C11
 //@   nopanic
 //@   requires b != nil
+//@
+//@ func Verify
+//@   property C02
+//@   requires r != nil
+//@   ghost sigG *AppxSignature = nil
+//@   ghost filesOK int = 0
+//@   ghost bmOK bool = false
+//@   ghost catOK bool = false
+//@   ghost metaOK bool = false
+//@   ghost tailOK bool = false
+//@   on call readSignature(_) ret (s, e): sigG = ite(e == nil, s, nil)
+//@   before call verifyFile(_, s, tag, name): assert @signed_parts_checked_against_the_verified_signature s == sigG && sigG != nil && \
+//@        ((filesOK == 0 && tag == "AXBM" && name == appxBlockMap) || (filesOK == 1 && tag == "AXCI" && name == appxCodeIntegrity) || (filesOK == 2 && tag == "AXCT" && name == appxContentTypes))
+//@   on call verifyFile(_, _, _, _) ret (e): filesOK = ite(e == nil, filesOK + 1, 100)
+//@   before call verifyBlockMap(_, _, skip): assert @block_map_digests_follow_the_callers_choice skip == skipDigests && filesOK == 3
+//@   on call verifyBlockMap(_, _, _) ret (e): bmOK = (e == nil)
+//@   on call verifyCatalog(_, s) ret (e): catOK = (e == nil && s == sigG)
+//@   before call verifyMeta(src, n, s, skip): assert @zip_metadata_digests_taken_from_the_same_archive src == r && n == size && s == sigG && skip == skipDigests
+//@   on call verifyMeta(_, _, _, _) ret (e): metaOK = (e == nil)
+//@   on call verifyBundle(_, _, s, skip) ret (e): tailOK = (e == nil && s == sigG && skip == skipDigests)
+//@   on call checkManifest(_, s) ret (e): tailOK = (e == nil && s == sigG)
+//@   ensures @success_only_after_every_signed_part_was_checked ret1 == nil ==> ret0 == sigG && sigG != nil && filesOK == 3 && bmOK && catOK && metaOK && tailOK
+//@   loop 0 sig "for _, file := range inz.File" invariant sigG == nil && filesOK == 0 && !bmOK && !catOK && !metaOK && !tailOK
+//@
+//@ func verifyFile
+//@   property C02
+//@   ghost eq bool = false
+//@   ghost copied bool = false
+//@   before call io.Copy(dst, _): assert @member_content_goes_to_the_signed_hash_function dst == iface(d)
+//@   on call io.Copy(_, _) ret (n, e): copied = (e == nil)
+//@   on call crypto/hmac.Equal(a, b) ret (ok): eq = ok && sameslice(a, calc) && sameslice(b, expected)
+//@   ensures @a_present_member_is_digested_and_compared_with_its_signed_digest ret0 == nil ==> (copied && eq) || (sig.HashValues[tag] == nil && files[name] == nil)
+//@
+//@ func verifyMeta
+//@   property C02
+//@   requires r != nil
+//@   ghost cd bool = false
+//@   ghost pc bool = false
+//@   ghost trunc bool = false
+//@   before call (*zipslicer.Directory).Truncate(_, n, body, dir): assert @archive_digested_without_the_signature_member n == sigIdx && dir == iface(axcd) && (!skipDigests ==> body == iface(axpc))
+//@   on call (*zipslicer.Directory).Truncate(_, _, _, _) ret (e): trunc = (e == nil)
+//@   on call crypto/hmac.Equal(a, b) ret (ok): pc = pc || (ok && sameslice(b, sig.HashValues["AXPC"])); cd = cd || (ok && sameslice(b, sig.HashValues["AXCD"]))
+//@   ensures @content_and_directory_digests_compared ret0 == nil ==> trunc && cd && (!skipDigests ==> pc)
+//@
+//@ func verifyBlockMap
+//@   property C02
+//@   ghost bad bool = false
+//@   on call crypto/hmac.Equal(a, b) ret (ok): bad = bad || !ok || !sameslice(a, calc) || !sameslice(b, expected)
+//@   ensures @no_block_digest_mismatch_is_tolerated ret0 == nil ==> !bad
+//@   loop 1 sig "for _, zf := range inz.File" invariant !bad
+//@   loop 2 sig "for i, block := range bmf.Block" invariant !bad
